@@ -66,10 +66,12 @@ theorem opt_id_render (b : Body) (cfg : Cfg) (h : b.WF cfg) (rest : Bytes) :
     · rw [parseU8Digit_append b.id (comma ++ rest) he hd (comma_nld rest) hv]
       simp only [he, if_false]
 
-/-- **Construction.** A well-formed body is accepted with exactly its fields. -/
-theorem parseAisSentence_render (cfg : Cfg) (b : Body) (h : b.WF cfg) (rest : Bytes) (hr : NoLeadDigit rest) :
-    parseAisSentence cfg (b.render ++ rest) = ok (rest, b.sentence) := by
-  unfold parseAisSentence Body.render
+theorem Body.WF.toStd {b : Body} {cfg : Cfg} (h : b.WF cfg) : b.WF .std :=
+  ⟨h.talker, h.report, h.nf, h.fn, h.id, h.ch, h.payload, h.fill, fun hc => by cases hc⟩
+
+theorem parseAisCore_render (cfg : Cfg) (b : Body) (h : b.WF cfg) (rest : Bytes) (hr : NoLeadDigit rest) :
+    parseAisCore (b.render ++ rest) = ok (rest, b.sentence) := by
+  unfold parseAisCore Body.render
   simp only [List.append_assoc]
   have t2 := takeBytes_append b.talker (b.report ++ (comma ++ (b.nf ++ (comma ++ (b.fn ++ (comma ++ (b.id ++ (comma ++
     (b.ch ++ (comma ++ (b.payload ++ (comma ++ (b.fill ++ rest)))))))))))))
@@ -97,19 +99,26 @@ theorem parseAisSentence_render (cfg : Cfg) (b : Body) (h : b.WF cfg) (rest : By
   have hf : ¬ ¬ decVal b.fill < 6 := by have := h.fill.2.2; omega
   rw [if_neg hf]
   rw [messageType_spec, if_neg h.payload.2]; simp only [Res.ok_bind]
-  have hcap : (cfg.isNoalloc && decide (maxSentence < b.payload.length)) = false := by
-    cases cfg <;> simp [Cfg.isNoalloc]
-    have := h.cap rfl; omega
-  rw [hcap]
-  simp only [Bool.false_eq_true, if_false]
   rfl
 
-/-- **Inversion.** Whatever `parse_ais_sentence` accepts is a well-formed body followed by the
-    unconsumed rest, and the sentence reports exactly that body's fields. -/
-theorem parseAisSentence_ok {cfg : Cfg} {i rest : Bytes} {s : Sentence}
-    (h : parseAisSentence cfg i = ok (rest, s)) :
-    ∃ b : Body, b.WF cfg ∧ i = b.render ++ rest ∧ s = b.sentence ∧ NoLeadDigit rest := by
-  unfold parseAisSentence at h
+/-- **Construction.** A well-formed body is accepted with exactly its fields. -/
+theorem parseAisSentence_render (cfg : Cfg) (b : Body) (h : b.WF cfg) (rest : Bytes) (hr : NoLeadDigit rest) :
+    parseAisSentence cfg (b.render ++ rest) = ok (rest, b.sentence) := by
+  unfold parseAisSentence
+  rw [parseAisCore_render cfg b h rest hr]
+  simp only [Res.ok_bind]
+  have hcap : (cfg.isNoalloc && decide (maxSentence < b.sentence.data.length)) = false := by
+    cases cfg <;> simp [Cfg.isNoalloc]
+    have := h.cap rfl
+    show b.payload.length ≤ maxSentence
+    omega
+  rw [hcap]
+  simp only [Bool.false_eq_true, if_false]
+
+theorem parseAisCore_ok {i rest : Bytes} {s : Sentence}
+    (h : parseAisCore i = ok (rest, s)) :
+    ∃ b : Body, b.WF .std ∧ i = b.render ++ rest ∧ s = b.sentence ∧ NoLeadDigit rest := by
+  unfold parseAisCore at h
   obtain ⟨⟨i1, talker⟩, h1, h⟩ := bind_ok h
   obtain ⟨⟨i2, report⟩, h2, h⟩ := bind_ok h
   obtain ⟨⟨i3, x3⟩, h3, h⟩ := bind_ok h
@@ -129,9 +138,6 @@ theorem parseAisSentence_ok {cfg : Cfg} {i rest : Bytes} {s : Sentence}
   · rw [if_pos hf] at h; cases h
   rw [if_neg hf] at h
   obtain ⟨mt, hmt, h⟩ := bind_ok h
-  by_cases hcap : (cfg.isNoalloc && decide (maxSentence < data.length)) = true
-  · rw [if_pos hcap] at h; cases h
-  rw [if_neg hcap] at h
   cases h
   have a1 := takeBytes_ok h1
   have a2 := takeBytes_ok h2
@@ -164,16 +170,32 @@ theorem parseAisSentence_ok {cfg : Cfg} {i rest : Bytes} {s : Sentence}
   · have q4 : decVal nfD ≤ 255 := by omega
     have q6 : decVal fnD ≤ 255 := by omega
     have q14 : decVal fillD < 6 := by omega
-    refine ⟨a1.2, a2.2, ⟨n4, d4, q4⟩, ⟨n6, d6, q6⟩, w8, a10.2.1, ⟨a12.2.1, hdne⟩,
-      ⟨n14, d14, q14⟩, ?_⟩
-    intro hc; subst hc
-    simp [Cfg.isNoalloc] at hcap
-    exact hcap
+    exact ⟨a1.2, a2.2, ⟨n4, d4, q4⟩, ⟨n6, d6, q6⟩, w8, a10.2.1, ⟨a12.2.1, hdne⟩,
+      ⟨n14, d14, q14⟩, fun hc => by cases hc⟩
   · unfold Body.render comma
     simp only []
     rw [a1.1, a2.1, a3.1, e4, a5.1, e6, a7.1, e8, a9.1, a10.1, a11.1, a12.1, a13.1, e14]
     simp only [List.append_assoc]
   · unfold Body.sentence
     simp only [v4, v6, v14, m8]
+
+/-- **Inversion.** Whatever `parse_ais_sentence` accepts is a well-formed body followed by the
+    unconsumed rest, and the sentence reports exactly that body's fields. -/
+theorem parseAisSentence_ok {cfg : Cfg} {i rest : Bytes} {s : Sentence}
+    (h : parseAisSentence cfg i = ok (rest, s)) :
+    ∃ b : Body, b.WF cfg ∧ i = b.render ++ rest ∧ s = b.sentence ∧ NoLeadDigit rest := by
+  unfold parseAisSentence at h
+  obtain ⟨⟨rest', s'⟩, hc, h⟩ := bind_ok h
+  simp only [] at h
+  by_cases hcap : (cfg.isNoalloc && decide (maxSentence < s'.data.length)) = true
+  · rw [if_pos hcap] at h; cases h
+  rw [if_neg hcap] at h
+  cases h
+  obtain ⟨b, hwf, hi, hs, hr⟩ := parseAisCore_ok hc
+  refine ⟨b, ⟨hwf.talker, hwf.report, hwf.nf, hwf.fn, hwf.id, hwf.ch, hwf.payload, hwf.fill, ?_⟩, hi, hs, hr⟩
+  intro hcfg; subst hcfg
+  subst hs
+  simp [Cfg.isNoalloc] at hcap
+  exact hcap
 
 end AisVerif
